@@ -796,11 +796,12 @@ class Hypergraph:
                 self._edge_attr[idx].update(attr)
                 self._edge_attr[idx].update(eattr)
 
+                if format2 or format4:
+                    update_uid_counter(self, idx)
+
             try:
                 e = next(new_edges)
             except StopIteration:
-                if format2 or format4:
-                    update_uid_counter(self, idx)
                 break
 
     def add_weighted_edges_from(self, ebunch, weight="weight", **attr):
